@@ -19,12 +19,27 @@ from atsim.potentials.tableforms import Cubic_Spline_Table_Form
 
 def gen_table(rng, n=None):
     n = n or rng.randint(2, 40)
-    xs, x = [], Fr(rng.randint(0, 8), 4)
+    xs, x = [], Fr(rng.randint(-24, 8) if rng.random() < 0.4 else rng.randint(0, 8), 4)     # (tables may start at negative abscissae)
     for _ in range(n):
         xs.append(x)
         x += Fr(rng.choice([1, 2, 3, 5, 8, 13]), 8)
     ys = [Fr(rng.randint(-400, 400), 16) for _ in range(n)]
     return xs, ys
+
+
+def spell(rng, q):
+    """one of the spellings of a number that float() reads: plain decimal, without the leading zero (.5, -.25), with an explicit sign (+1.5), with an exponent (1.5e0, 15e-1)"""
+    t = impl.decimal_str(q)
+    r = rng.random()
+    if r < 0.75:
+        return t
+    if r < 0.85 and abs(q) < 1 and q != 0:
+        return t.replace("0.", ".", 1)
+    if r < 0.92 and q >= 0:
+        return "+" + t
+    if r < 0.96:
+        return t + "e0"
+    return impl.decimal_str(q * 10) + "e-1"
 
 
 def file_text(rng, xs, ys, final_newline=True, shuffle=True):
@@ -37,7 +52,7 @@ def file_text(rng, xs, ys, final_newline=True, shuffle=True):
             lines.append(rng.choice(["# a comment", "", "   ", "  # indented comment"]))
         sep = rng.choice([" ", "  ", "\t", " \t "])
         extra = rng.choice(["", "", " 99.5", "\t# trailing"]) if rng.random() < 0.2 else ""
-        lines.append(("  " if rng.random() < 0.1 else "") + impl.decimal_str(x) + sep + impl.decimal_str(y) + extra)
+        lines.append(("  " if rng.random() < 0.1 else "") + spell(rng, x) + sep + spell(rng, y) + extra)
     t = "\n".join(lines)
     return t + ("\n" if final_newline else "")
 
